@@ -147,7 +147,7 @@ def run_case(case, ctx):
 
     if case["op"] == "lint":
         p = case["c"]
-        c = build(p)
+        c = build(p, case.get("ord"))
         runs = []
         for ff, ul, ud, si in FLAGS:
             exc = ""
